@@ -1283,6 +1283,14 @@ impl<'x, 'a, 'ast> Visit<'ast> for PassA<'x, 'a> {
             self.visit_block(&e.body);
             return;
         }
+        // X12: `for x in &C` -> `for x in C.iter()` (identical for the std sequence collections used here: the
+        // IntoIterator impl of `&VecDeque<T>` / `&Vec<T>` / `&[T]` *is* `.iter()`); vstd specifies the latter only
+        if let syn::Expr::Reference(r) = &*e.expr {
+            if r.mutability.is_none() {
+                let inner = self.w.src[lo(r.expr.span())..hi(r.expr.span())].to_string();
+                self.w.rewrite("X12", lo(e.expr.span()), hi(e.expr.span()), format!("{}.iter()", inner));
+            }
+        }
         let spec = self.loop_spec(ord);
         if let Some(ls) = self.w.c.loops.get(&ord) {
             if let Some(n) = &ls.iter_name {
